@@ -353,6 +353,29 @@ def part_deep_model(ctx):
                 ctx.diverge(case, repr(d), '%s (= %r)' % (m, want), op='DDIST')
 
 
+def part_views(ctx):
+    from . import _difffam as FAM
+    """the reported deep_distance is one number per comparison: the tree view and the text view of the same inputs and options carry the same one"""
+    from deepdiff import DeepDiff
+    pairs = FAM.gen_pairs(ctx, 200 if ctx.thorough() else 40) + [([1, 2, 3], [1, 2, 4]), ({'a': [1, 2]}, {'a': [2, 1, 5]}), ({1, 2}, {2, 3}), ('a', 'b'), ([[1, 2], [3]], [[3], [1, 2, 9]])]
+    for (t1, t2) in pairs:
+        for kw in (dict(), dict(ignore_order=True), dict(ignore_order=True, cutoff_distance_for_pairs=0.6)):
+            case = {'kind': 'views', 't1': repr(t1), 't2': repr(t2), 'cfg': kw}
+            ctx.evaluations += 1
+            try:
+                a = DeepDiff(t1, t2, get_deep_distance=True, **kw).get('deep_distance', 0)
+                b = DeepDiff(t1, t2, get_deep_distance=True, view='tree', **kw).get('deep_distance', 0)
+            except Exception as e:
+                ctx.count('views_raised:' + type(e).__name__); continue
+            ctx.count('views')
+            if a:
+                ctx.nontriv((repr(t1), repr(t2), repr(sorted(kw.items())), 'views'))
+            if a != b:
+                ctx.violate(case, 'deep_distance is %r in the text view and %r in the tree view' % (a, b))
+            if not (0 <= b <= 1) and (0 <= a <= 1):
+                ctx.violate(case, 'deep_distance %r in the tree view is outside [0, 1]' % b)
+
+
 def part_deep(ctx):
     from deepdiff import DeepDiff
     g = Gen(ctx.rng, keys=['a', 'b', 'c', 'dd', 'k1'], max_depth=3, max_width=4, bytes_=True)
@@ -436,6 +459,7 @@ def run(ctx, impl_only=False):
     wit = part_typed(ctx)
     part_root_numbers(ctx)
     part_deep(ctx)
+    part_views(ctx)
     part_deep_model(ctx)
     wit.update(deep_wit())
     findings = {f['id']: f for f in core.load_findings(ID) if f.get('status') == 'open'}
